@@ -166,7 +166,18 @@ class Listener(threading.Thread):
         self.script = script
         self.sock = socket.socket()
         self.sock.setsockopt(socket.SOL_SOCKET, socket.SO_REUSEADDR, 1)
-        self.sock.bind(("127.0.0.1", 0))
+        # (thousands of short loopback connections per shard leave the ephemeral range full of TIME_WAIT entries: on a
+        # busy machine bind(…, 0) can fail transiently with EADDRINUSE - wait for a port instead of crashing the shard)
+        for attempt in range(200):
+            try:
+                self.sock.bind(("127.0.0.1", 0))
+                break
+            except OSError:
+                if attempt == 199:
+                    raise
+                import time as _t
+
+                _t.sleep(0.05 + 0.01 * attempt)
         self.sock.listen(64)
         self.port = self.sock.getsockname()[1]
         self.log: list[dict[str, typing.Any]] = []
@@ -410,7 +421,18 @@ class TLSNet:
             self.dials.append((address[0], address[1]))
             # (no bind-before-connect: the kernel must pick a source port knowing the destination, or a busy run
             # hits EADDRNOTAVAIL on 4-tuples still in TIME_WAIT; the listener waits for the port to be registered)
-            s = socket.create_connection(("127.0.0.1", self.listener.port), timeout=5.0)
+            import errno as _errno
+            import time as _t
+
+            for attempt in range(100):
+                try:
+                    s = socket.create_connection(("127.0.0.1", self.listener.port), timeout=5.0)
+                    break
+                except OSError as e:
+                    # the harness's own port shortage is not an outcome of the code under test
+                    if e.errno not in (_errno.EADDRNOTAVAIL, _errno.EADDRINUSE) or attempt == 99:
+                        raise
+                    _t.sleep(0.05 + 0.01 * attempt)
             self.listener.own_ports.add(s.getsockname()[1])
             self.client_socks.append(s)
             return s
